@@ -419,6 +419,9 @@ class Analysis:
                 # field of a downcast?
                 if e.k == "downcast":
                     e = E("vfield", e.a[0], e.a[1], el["name"])
+                elif e.k == "agg" and isinstance(e.a[1], dict) and el["name"] in e.a[1] and e.a[0] in ("tuple", "array"):
+                    # component of a tuple that was just built
+                    e = e.a[1][el["name"]]
                 else:
                     e = E("field", e, el["name"], meta=el.get("adt"))
             elif isinstance(el, dict) and "down" in el:
@@ -437,7 +440,7 @@ class Analysis:
         if op.kind in ("copy", "move"):
             return self.place_expr(op.place, bb, idx, depth + 1, visiting)
         if op.kind == "const":
-            return E("const", const_value(op), meta={"named": op.named, "ty": op.ty})
+            return E("const", const_value(op), meta={"named": op.named, "ty": op.ty, "refs": op.raw.get("promoted_refs")})
         return E("unknown", str(op.raw))
 
     def rvalue_expr(self, rv, bb, idx, depth=0, visiting=None):
@@ -589,6 +592,16 @@ class Analysis:
                         if path is not None and not (via_param and not s.place.proj):
                             kind = "def" if (not path and not via_param and s.place.is_local()) else "write"
                             evs.append(dict(kind=kind, bb=b.idx, idx=i, path=path, stmt=s, sp=s.sp))
+                    # a reference-typed object read through (`&(*obj)`, `(*obj)[i]`)
+                    if not via_param:
+                        thru = []
+                        if s.rv.place is not None and s.rv.place.local == root and s.rv.place.proj and s.rv.place.proj[0] == "deref":
+                            thru.append(s.rv.place)
+                        for o in s.rv.ops:
+                            if o.kind in ("copy", "move") and o.place.local == root and o.place.proj and o.place.proj[0] == "deref":
+                                thru.append(o.place)
+                        for pl in thru:
+                            evs.append(dict(kind="read", bb=b.idx, idx=i, path=["*"], stmt=s, sp=s.sp))
                     # moves of the whole object out
                     for o in s.rv.ops:
                         if o.kind == "move" and o.place.is_local() and o.place.local == root and not via_param:
